@@ -11,6 +11,7 @@ import (
 	"go/token"
 	"go/types"
 	"sort"
+	"strings"
 )
 
 type depSet struct {
@@ -262,11 +263,11 @@ func guardAtoms(c *Ctx, fn *FuncRef, target ast.Node) []string {
 	var out []string
 	addCond := func(e ast.Expr, negate bool) {
 		if negate {
-			out = append(out, "!("+pc.path(e)+")")
+			out = append(out, positiveForm("!("+pc.path(e)+")"))
 			return
 		}
 		for _, x := range flattenAnd(e) {
-			out = append(out, pc.path(x))
+			out = append(out, positiveForm(pc.path(x)))
 		}
 	}
 	var cur ast.Node = target
@@ -282,6 +283,23 @@ func guardAtoms(c *Ctx, fn *FuncRef, target ast.Node) []string {
 			} else if cur == p.Else {
 				addCond(p.Cond, true)
 			}
+		case *ast.CaseClause:
+			// `switch tag { case v: … }`: the statement runs when tag equals one of the case values
+			if sw, ok := pm[pm[p]].(*ast.SwitchStmt); ok && sw.Tag != nil {
+				if len(p.List) == 0 {
+					out = append(out, "default-of("+pc.path(sw.Tag)+")")
+				} else {
+					var alts []string
+					for _, e := range p.List {
+						alts = append(alts, "("+pc.path(sw.Tag)+" == "+pc.path(e)+")")
+					}
+					out = append(out, strings.Join(alts, " or "))
+				}
+			} else if ok && sw.Tag == nil {
+				for _, e := range p.List {
+					addCond(e, false)
+				}
+			}
 		case *ast.BlockStmt:
 			for _, s := range p.List {
 				if s == cur {
@@ -289,6 +307,20 @@ func guardAtoms(c *Ctx, fn *FuncRef, target ast.Node) []string {
 				}
 				if is, ok := s.(*ast.IfStmt); ok && endsInExit(is.Body) {
 					addCond(is.Cond, true)
+					// leaving the whole loop (break / return) is more than skipping one element: every later
+					// element is skipped too — an extra condition "never true for an earlier element"
+					leavesLoop := false
+					switch x := is.Body.List[len(is.Body.List)-1].(type) {
+					case *ast.BranchStmt:
+						leavesLoop = x.Tok != token.CONTINUE
+					case *ast.ReturnStmt:
+						leavesLoop = true
+					} // a panic ends the program: nothing is silently skipped
+					if leavesLoop {
+						if enclosingLoopBody(pm, p) {
+							out = append(out, "no-earlier-element-with("+pc.path(is.Cond)+")")
+						}
+					}
 				}
 			}
 		}
@@ -296,4 +328,71 @@ func guardAtoms(c *Ctx, fn *FuncRef, target ast.Node) []string {
 	}
 	sort.Strings(out)
 	return out
+}
+
+// enclosingLoopBody: blk is the body of a for / range statement.
+func enclosingLoopBody(pm map[ast.Node]ast.Node, blk *ast.BlockStmt) bool {
+	switch pm[blk].(type) {
+	case *ast.ForStmt, *ast.RangeStmt:
+		return true
+	}
+	return false
+}
+
+// positiveForm rewrites a printed atom so that negation is folded into comparison operators:
+// !(A != B) → (A == B), !(A == B) → (A != B), !(A < B) → (A >= B) …; !!X → X. Other atoms are returned unchanged
+// (a leading "!" then means a genuinely negated predicate).
+func positiveForm(a string) string {
+	a = strings.TrimSpace(a)
+	strip := func(s string) string {
+		for len(s) >= 2 && s[0] == '(' && matchingParen(s, 0) == len(s)-1 {
+			s = strings.TrimSpace(s[1 : len(s)-1])
+		}
+		return s
+	}
+	neg := false
+	for {
+		a = strip(a)
+		if strings.HasPrefix(a, "!") && !strings.HasPrefix(a, "!=") {
+			neg = !neg
+			a = strings.TrimSpace(a[1:])
+			continue
+		}
+		break
+	}
+	if !neg {
+		return "(" + a + ")"
+	}
+	tl := topLevel(a)
+	if !strings.Contains(tl, "&&") && !strings.Contains(tl, "||") {
+		flip := map[string]string{"==": "!=", "!=": "==", "<=": ">", ">=": "<", "<": ">=", ">": "<="}
+		for _, op := range []string{"==", "!=", "<=", ">=", "<", ">"} {
+			if i := strings.Index(tl, " "+op+" "); i >= 0 {
+				return "(" + a[:i] + " " + flip[op] + " " + a[i+len(op)+2:] + ")"
+			}
+		}
+	}
+	return "!(" + a + ")"
+}
+
+// topLevel blanks everything inside parentheses / brackets (same length as the input).
+func topLevel(s string) string {
+	b := []byte(s)
+	depth := 0
+	for i := range b {
+		switch b[i] {
+		case '(', '[':
+			depth++
+			b[i] = '_'
+			continue
+		case ')', ']':
+			depth--
+			b[i] = '_'
+			continue
+		}
+		if depth > 0 {
+			b[i] = '_'
+		}
+	}
+	return string(b)
 }
